@@ -188,3 +188,77 @@ def c19(tier, seed, only):
         "the levels at which a consistency algorithm can be entered (top <= H-2) are derived from the step harness and assumed by the shaving harness",
     ]
     return chk.finish({})
+
+
+from . import solvefam  # noqa: E402
+
+OPT_MODELS = ["lt", "sum_eq", "alldiff3", "max_eq", "obj_under_leq", "obj_shared_offset", "free2", "shared_twice", "geq_leq", "count", "relation", "element_iv", "noncoprime_eq"]
+
+
+def _objectives(name):
+    from nusym import h_solve
+
+    return range(len(h_solve.MODELS[name]["vars"]))
+
+
+@check("C01")
+def c01(tier, seed, only):
+    chk = Check("C01", tier, seed)
+    runs = solvefam.plan(tier, seed, models=only)
+    batch = solvefam.run_plan(chk, ["C01"], runs)
+    # results of optimisation and of the multiprocessing workers are assignments too
+    for name in OPT_MODELS if tier != "quick" else OPT_MODELS[:8]:
+        if only and name not in only:
+            continue
+        for mode in ("minimize", "maximize"):
+            batch += solvefam.run_plan(chk, ["C01"], [(name, {})], mode=mode, objective=0)
+        batch += solvefam.run_plan(chk, ["C01"], [(name, {})], mode="solve_q")
+    chk.assumptions.append("multiprocessing solver: the worker entry points are run against a collecting queue here; that the parent yields exactly the workers' messages is C11")
+    return chk.finish({"solve": batch})
+
+
+@check("C02")
+def c02(tier, seed, only):
+    from nusym import h_solve
+
+    chk = Check("C02", tier, seed)
+    runs = solvefam.plan(tier, seed, models=only)
+    batch = solvefam.run_plan(chk, ["C02"], runs)
+    # every order in which the constraints were posted
+    import itertools
+
+    for name, md in h_solve.MODELS.items():
+        if only and name not in only:
+            continue
+        n = len(md["props"])
+        if n >= 2:
+            for order in list(itertools.permutations(range(n)))[1:]:
+                batch += solvefam.run_plan(chk, ["C02"], [(name, {})], order=list(order))
+    chk.assumptions.append("'the same multiset for every configuration and posting order' holds because every run is compared with the same semantic set {x in box | all documented relations hold} by a z3 query (exactly once + complete)")
+    return chk.finish({"solve": batch})
+
+
+@check("C03")
+def c03(tier, seed, only):
+    chk = Check("C03", tier, seed)
+    batch = []
+    pw = solvefam.pairwise_configs()
+    k = seed
+    for name in OPT_MODELS:
+        if only and name not in only:
+            continue
+        for obj in _objectives(name):
+            for mode in ("minimize", "maximize"):
+                cfgs = [{}]
+                if tier != "quick" or obj == 0:
+                    cfgs.append(pw[k % len(pw)])
+                    k += 1
+                for cfg in cfgs:
+                    batch += solvefam.run_plan(chk, ["C03", "C01"], [(name, cfg)], mode=mode, objective=obj)
+        batch += solvefam.run_plan(chk, ["C03", "C01", "C11"], [(name, {})], mode="minimize_q", objective=0)
+        batch += solvefam.run_plan(chk, ["C03", "C01", "C11"], [(name, {})], mode="maximize_q", objective=len(list(_objectives(name))) - 1)
+    chk.assumptions += [
+        "unwinding assertion: optimize() calls solve_one at most width+3 times (width = D+1 values of the objective's domain); exceeding it is reported",
+        "distributed optimisation = the worker loop optimize_and_queue (run here against a collecting queue) + the reducer (C11) + the split (C12)",
+    ]
+    return chk.finish({"solve": batch})
